@@ -14,11 +14,13 @@ mod ops_bits;
 mod ops_linalg;
 mod ops_create;
 mod ops_str;
+mod ops_monitor;
 
 use common::*;
 use std::io::{BufRead, Write};
 
 fn dispatch(op: &str, ty: &str, args: &[Arg]) -> String {
+    if let Some(r) = ops_monitor::dispatch(op, ty, args) { return r; }
     if let Some(r) = ops_index::dispatch(op, ty, args) { return r; }
     if let Some(r) = ops_axis::dispatch(op, ty, args) { return r; }
     if let Some(r) = ops_broadcast::dispatch(op, ty, args) { return r; }
